@@ -7,7 +7,8 @@
           the client wrote them, server -> client in the order the server wrote them), checked
           against the property over traces: every Reply answers exactly one earlier Call of that
           connection with the result of that call's own payload, no Call is answered twice, nothing
-          answers a Post. *)
+          answers a Post.  The runs include calls whose arguments and results have several hundred
+          KiB; payloads are written run-length compressed (zpay) and expanded here. *)
 From QV Require Import Auth Call Facts.
 From Coq Require Import String.
 Local Open Scope N_scope.
